@@ -350,8 +350,10 @@ pub fn json_to_js_value_with_guard(
             let obj = interp.create_object(guard);
             for (key, value) in map {
                 let js_value = json_to_js_value_with_guard(interp, value, guard)?;
-                let interned_key = PropertyKey::String(interp.intern(key));
-                obj.borrow_mut().set_property(interned_key, js_value);
+                // Same canonical key a script uses: "2" is the index key 2, so that
+                // obj[2] and obj["2"] find the member
+                let property_key = interp.property_key(key);
+                obj.borrow_mut().set_property(property_key, js_value);
             }
             JsValue::Object(obj)
         }
